@@ -30,6 +30,14 @@ def run(ctx, rep):
     rep.rule("R09-SORTKEY", "the sort that orders validators in the blueprint keys on the module name (the key of the hash map it came from) and the validator name", floor=1)
     rep.rule("R09-SER", "no std HashMap/HashSet inside a serialised blueprint type", floor=5)
     rep.rule("R09-PAR", "rayon entry points are the reviewed three", floor=3)
+    rep.rule("R09-MERGE", "merging the per-chunk results of the parallel parse looks for common keys before it extends the map: which of two files of one module name survives must not depend on the chunking", floor=1)
+    rep.rule("R09-WALKFLAG", "a flag folded over the directory walk only ever moves one way (None -> Some(false) -> Some(true)): its final value is independent of the order the files are listed in", floor=2)
+    rep.rule("R09-MARK", "Definitions::register removes or completes its in-progress mark on every exit: a mark left behind by a failed build reads as a definition and depends on the visiting order", floor=1)
+    rep.rule("R09-LOOPEFFECT", "inside the hash-ordered loops of Blueprint::new the definitions are only added to (Annotated::from_type): no whole-table rewrite whose result depends on how much has been added so far", floor=1)
+    rep.guarded("R09-MERGE", lambda: r_merge(sh, rep))
+    rep.guarded("R09-WALKFLAG", lambda: r_walkflag(sh, rep))
+    rep.guarded("R09-MARK", lambda: r_mark(sh, rep))
+    rep.guarded("R09-LOOPEFFECT", lambda: r_loopeffect(sh, rep))
     rep.guarded("R09-RESET", lambda: r_reset(fl, sh, rep))
     rep.guarded("R09-FINALIZE", lambda: r_finalize(fl, sh, rep))
     rep.guarded("R09-CACHE", lambda: r_cache(fl, sh, rep))
@@ -296,3 +304,86 @@ def r_par(fl, rep):
                 users.setdefault(panic_audit.root_of(fl, f)["path"], set()).add((dec or cal).split("::")[-1])
     for u in sorted(users):
         rep.check(u in PAR_REVIEWED, "R09-PAR", u, "", "%s uses rayon (%s) and is not one of the reviewed parallel sections: results gathered from worker threads arrive in scheduling order unless the combinator preserves indices" % (u, sorted(users[u])), why_ok=PAR_REVIEWED.get(u, ""), sample={"combinators": sorted(users[u])})
+
+
+# ---------------------------------------------------------------------------------------------------------
+# order-independence of the project loader (round 3)
+# ---------------------------------------------------------------------------------------------------------
+PL = "crates/aiken-project/src/lib.rs"
+
+
+def r_merge(sh, rep):
+    f = find_method(sh.file(PL), "Project", "parse_sources")
+    rep.touched(PL, "Project::parse_sources")
+    n = 0
+    for c in walk(f["body"]):
+        if c.get("k") == "MethodCall" and c["m"] == "reduce" and len(c["args"]) == 2 and c["args"][1].get("k") == "Closure":
+            body = c["args"][1]["body"]
+            ext = [x for x in walk(body) if x.get("k") == "MethodCall" and x["m"] in ("extend", "insert", "append") and any(y.get("k") == "MethodCall" and y["m"] in ("drain", "into_iter") for y in walk(x)) or (x.get("k") == "MethodCall" and x["m"] == "extend")]
+            if not ext:
+                continue
+            n += 1
+            first_ext = min(x["s"][0] for x in ext)
+            dupcheck = [x for x in walk(body) if x.get("k") == "MethodCall" and x["m"] in ("intersection", "contains_key", "contains") and x["s"][0] < first_ext]
+            rep.check(bool(dupcheck), "R09-MERGE", "parse_sources#reduce#common-keys-before-extend", sh.loc(PL, c), "the closure that merges two partial results of the parallel parse extends one module map with the other without first looking for common keys: two files of one module name are reported as duplicates only when they land in the same chunk — with more worker threads the project builds, with the later file winning")
+    if not n:
+        raise AnchorMissing("the reduce step of Project::parse_sources")
+
+
+def r_walkflag(sh, rep):
+    f = find_method(sh.file(PL), "Project", "aiken_files")
+    rep.touched(PL, "Project::aiken_files")
+    muts = {st["pat"]["name"] for st in f["body"]["stmts"] if st.get("k") == "Local" and st["pat"].get("k") == "Ident" and st["pat"].get("mut")}
+    n = 0
+    for node, anc in walk_parents(f["body"]):
+        if node.get("k") != "Assign" or node["l"].get("k") != "Path" or node["l"]["p"] not in muts:
+            continue
+        if not any(a.get("k") == "Closure" for a in anc):
+            continue
+        name = node["l"]["p"]
+        n += 1
+        rhs = sh.nsrc(PL, node["r"])
+        guarded_none = any(a.get("k") == "If" and ("%s.is_none()" % name) in sh.nsrc(PL, a["cond"]) for a in anc)
+        ok = rhs in ("Some(true)", "true") or re.search(r"(?<![\w.])%s\b" % re.escape(name), rhs) is not None or (guarded_none and rhs in ("Some(false)", "false"))
+        rep.check(ok, "R09-WALKFLAG", "aiken_files#%s#%d" % (name, n), sh.loc(PL, node), "inside the directory walk `%s` is overwritten with `%s`: its value after the walk is that of the last file listed, and the listing order is the file system's — the same sources build on one machine and fail (NoDefaultEnvironment) on another" % (name, rhs[:60]), sample={"rhs": rhs[:80]})
+    if n < 2:
+        raise AnchorMissing("assignments to the walk flag in Project::aiken_files (found %d)" % n)
+
+
+def r_mark(sh, rep):
+    DEF = "crates/aiken-project/src/blueprint/definitions.rs"
+    f = find_method(sh.file(DEF), "Definitions", "register")
+    rep.touched(DEF, "Definitions::register")
+    marks = [c for c in walk(f["body"]) if c.get("k") == "MethodCall" and c["m"] == "insert" and len(c["args"]) == 2 and sh.nsrc(DEF, c["args"][1]) == "None"]
+    if not marks:
+        raise AnchorMissing("the in-progress mark (insert(key, None)) of Definitions::register")
+    mark_line = marks[0]["s"][0]
+    # an early exit (`?` / return) after the mark must be preceded, in its own branch, by a remove of the mark
+    exits = []
+    for node, anc in walk_parents(f["body"]):
+        if node.get("k") in ("Try", "Return") and node["s"][0] > mark_line:
+            scope = next((a for a in reversed(anc) if a.get("k") in ("Arm", "Block")), None)
+            removed = scope is not None and any(x.get("k") == "MethodCall" and x["m"] == "remove" and x["s"][0] <= node["s"][0] for x in walk(scope))
+            exits.append((node, removed))
+    bad = [e for e, r in exits if not r]
+    rep.check(not bad, "R09-MARK", "register#mark-removed-or-completed-on-every-exit", sh.loc(DEF, bad[0]) if bad else sh.loc(DEF, marks[0]), "Definitions::register can leave (`%s`) after inserting the in-progress mark and before completing or removing it: a caller that carries on after the error (the all-types export swallows unsupported types) publishes the mark as `null` — or the full schema, if another visiting order built the type first" % (sh.nsrc(DEF, bad[0])[:50] if bad else ""), sample={"exits_after_mark": len(exits)})
+
+
+def r_loopeffect(sh, rep):
+    BP = "crates/aiken-project/src/blueprint/mod.rs"
+    f = find_method(sh.file(BP), "Blueprint", "new")
+    rep.touched(BP, "Blueprint::new")
+    loops = [n for n in walk(f["body"]) if n.get("k") == "For" and re.search(r"\.values\(\)|\.iter\(\)|\.keys\(\)", sh.nsrc(BP, n["e"]))]
+    if not loops:
+        raise AnchorMissing("the hash-ordered loops of Blueprint::new")
+    outer = [l for l in loops if not any(l is not o and any(x is l for x in walk(o["body"])) for o in loops)]
+    allowed = {"from_type"}
+    for i, lp in enumerate(outer):
+        uses = []
+        for c in walk(lp["body"]):
+            if c.get("k") == "MethodCall" and sh.nsrc(BP, c["recv"]) == "definitions":
+                uses.append(c["m"])
+            elif c.get("k") == "Call" and any(sh.nsrc(BP, a) in ("&mutdefinitions", "definitions") for a in c["args"]):
+                uses.append(last(call_name(c) or "?"))
+        extra = sorted(set(uses) - allowed)
+        rep.check(not extra, "R09-LOOPEFFECT", "Blueprint::new#loop%d#definitions-only-added-to" % (i + 1), sh.loc(BP, lp), "inside a loop over a hash map, Blueprint::new applies %s to the definitions collected so far: what a whole-table operation does depends on which modules have been visited already, so the blueprint changes with the hash seed" % extra, sample={"uses": sorted(set(uses))})
